@@ -218,7 +218,9 @@ static int free_step(int until)
       return 1;
     }
     struct sched_ev *e = &fsch[h].ev[fsch[h].next++];
-    if (!strcmp(e->k, "ggone")) { sk_grand_gone(p); trace_env("ggone", h, "x", 1, NULL, 0); }
+    int held = 0; for (int fd = 0; fd < SK_MAXFD; fd++) if (K->proc[p].fd[fd].ofd >= 0) held = 1;
+    if (!strcmp(e->k, "ggone")) { if (held) { sk_grand_gone(p); trace_env("ggone", h, "x", 1, NULL, 0); } }
+    else if (!strcmp(e->k, "exitg") && !held) { sk_child_exit(p, (e->a & 0xff) << 8); trace_env("exit", h, "code", e->a, NULL, 0); }   /* nothing left to inherit: an ordinary end */
     else if (!strcmp(e->k, "exitg")) { sk_child_exit_keep(p, (e->a & 0xff) << 8); trace_env("exitg", h, "code", e->a, NULL, 0); }
     else if (!strcmp(e->k, "eintr")) { if (in_block) { sk_interrupt = 1; trace_env("eintr", 0, NULL, 0, NULL, 0); } }  /* a signal handler of the caller runs: only a blocked call notices */
     else if (!strcmp(e->k, "out") || !strcmp(e->k, "err")) {
